@@ -17,7 +17,7 @@ K3_CLASSES = ("kill:K3", "reply_eof:submit", "reply_rst:submit", "reply_garbage:
 STATUS_NAMES = ["shouldrun", "submitted", "running", "completed", "failed", "cancelled"]
 
 OPTION_POOLS = {
-    "slurm": {"cores": [1, 2, 8], "memory": ["1g", "4g"], "walltime": ["00:10:00"], "queue": ["normal", None],
+    "slurm": {"cores": [1, 2, 8], "memory": ["1g", "4g"], "walltime": ["00:10:00"], "queue": ["normal", None, "hidden"],
               "account": ["acc", None], "bogus_option": [1, None]},
     "sge": {"cores": [1, 2, 4], "memory": ["8g", "2g"], "walltime": ["00:10:00"], "queue": ["q", None],
             "bogus_option": [1]},
@@ -60,6 +60,8 @@ def draw_knobs(rng: Rng, profile: dict):
     )
     if not kn["accounting"]:
         kn["acct_lag"] = False
+    if profile.get("p_instant_start") and kr.chance(profile["p_instant_start"]):
+        kn["instant_start"] = True
     if profile.get("p_huge") and kr.chance(profile["p_huge"]):
         # a few runs use workflows of hundreds of targets in long chains with far-apart diamonds (caches,
         # memo tables and anything else whose behaviour depends on size); short histories keep them affordable
@@ -91,6 +93,12 @@ class WorldScenario:
                                    protect=profile.get("protect", False),
                                    exotic_shapes=profile.get("exotic_shapes", True),
                                    chainy=self.knobs.get("chainy", 0.0))
+            if profile.get("spec_variety"):
+                # spec texts with carriage returns, blank and indented lines, trailing blanks, no final newline
+                sr = self.rng.fork("specs")
+                for t in self.model.targets.values():
+                    t.spec_extra = sr.pick(["", "", "", "\r\necho second line\r", "\n\n# trailing comment", " \t ",
+                                            "\n  indented line", "\r", "\necho no newline at the end<NONL>"])
             self.knobs["model"] = self.model.to_json()
             self.script = None
         self.ops = []
@@ -303,6 +311,15 @@ class WorldScenario:
             if r.chance(pf.get("p_epoch_zero", 0.0)):
                 sf["epoch_zero"] = True
             add("set_file", sf)
+        if files_out and wt.get("links", 0) > 0:
+            lk = {"op": "link_output", "f": r.pick(files_out), "dst_age": r.pick([0, 1, 2, 5, 9]),
+                  "link_age": r.pick([0, 0, 3, 12])}
+            if r.chance(0.3):
+                lk["dangling"] = True
+            add("links", lk)
+            if w.model.sources:
+                add("links", {"op": "link_source", "f": r.pick(w.model.sources), "dst_age": r.pick([0, 1, 2, 5, 9]),
+                              "link_age": r.pick([0, 0, 3, 12])}, 0.5)
         if w.model.targets:
             add("edit_spec", {"op": "edit_spec", "t": r.pick(list(w.model.targets))})
         add("advance", {"op": "advance", "dt": r.pick([1, 1, 2, 5]) * self.knobs["granularity"]})
@@ -403,19 +420,32 @@ class WorldScenario:
             w.fs.world_touch_at(p, 0.0 if op.get("epoch_zero") else t0 - op["age"] * g)
             if op.get("epoch_zero"):
                 w.probe("epoch_zero_files")
-        elif kind == "link_output":
-            # the declared output becomes a symbolic link to a data file that belongs to nobody
+        elif kind in ("link_output", "link_source"):
+            # the declared output (or a source file) becomes a symbolic link to a data file that belongs to nobody:
+            # results linked in from a data volume.  The link's own time stamp differs from the destination's,
+            # and the link may dangle.
             p = w.path(op["f"])
             os.makedirs(w.path("shared"), exist_ok=True)
             dst = w.path("shared/data_" + op["f"].replace("/", "_"))
+            if kind == "link_source" and op["f"] not in w.model.sources:
+                return
             if not os.path.islink(p):
-                with fsx._real_open(dst, "wb") as f:
-                    f.write(b"precious shared data\n")
-                w.fs.world_touch_at(dst, 1_000_000.0 - 8.0)
-                if os.path.exists(p):
+                g = self.knobs["granularity"]
+                t0 = (1_000_000.0 // g) * g
+                if op.get("dangling"):
+                    if os.path.exists(dst):
+                        fsx._real_remove(dst)
+                else:
+                    with fsx._real_open(dst, "wb") as f:
+                        f.write(b"precious shared data\n")
+                    w.fs.world_touch_at(dst, (t0 - op["dst_age"] * g) if "dst_age" in op else 1_000_000.0 - 8.0)
+                if os.path.lexists(p):
                     fsx._real_remove(p)
                 os.symlink(dst, p)
-                w.probe("symlinked_outputs")
+                if "link_age" in op:
+                    ns = int(round((t0 - op["link_age"] * g) * 1e9))
+                    os.utime(p, ns=(ns, ns), follow_symlinks=False)
+                w.probe("dangling_links" if op.get("dangling") else "symlinked_outputs" if kind == "link_output" else "symlinked_sources")
         elif kind == "edit_spec":
             t = w.model.targets.get(op["t"])
             if t is not None:
